@@ -376,7 +376,7 @@ def read_save(src, typedefs):
         tytxt = m.group(1)
         ty = ty_of(tytxt)
         t = t[m.end():]
-        prec = r'(<<std::setprecision\(std::numeric_limits<([\w:]+)>::max_digits10\))?'
+        prec = r'(?P<prec><<std::setprecision\(std::numeric_limits<(?P<pty>[\w:]+)>::max_digits10\))?'
         if ty == "TVecFloat":
             mm = re.match(r'for\((?:const)?auto&?(\w+):_vm\[it->first\]\.as<' + re.escape(tytxt) + r'>\(\)\)\{ofs<<it->first<<\'=\'' + prec + r'<<\1<<std::endl;\}\}', t)
             elty = "float"
@@ -386,8 +386,8 @@ def read_save(src, typedefs):
         if not mm:
             raise TranslateError("save(): writer branch for %s not understood: %s" % (tytxt, t[:100]))
         pr = False
-        if mm.group(2):
-            pt = mm.group(3)
+        if mm.group("prec"):
+            pt = mm.group("pty")
             for _ in range(4):
                 pt = typedefs.get(pt, pt)
             e = elty
